@@ -94,6 +94,7 @@ Big(n) ==
   CASE n = "str70k"    -> MkBig(<<LB, StrI(<<"F">>), RB>>, 70000, <<>>, 0)
     [] n = "str40k"    -> MkBig(<<LB, StrI(<<"F">>), RB>>, 40000, <<>>, 0)
     [] n = "str200k"   -> MkBig(<<LC, StrI(<<"o">>), CO, StrI(<<"o", "F", "Q", "a", "s", "s">>), RC, LineC(<<"a">>, "open")>>, 200000, <<>>, 0)
+    [] n = "str2m"     -> MkBig(<<LB, StrI(<<"F", "Q">>), CM, BlockC(<<"F", "q">>), StrI(<<"o">>), RB>>, 2000000, <<>>, 0)
     [] n = "nums100k"  -> MkBig(<<LB, RepI, N1, RB>>, 0, <<V("12"), CM>>, 34000)
     [] n = "strs100k"  -> MkBig(<<LB, RepI, N1, RB>>, 0, <<StrI(<<"o", "o">>), CM>>, 20000)
     [] n = "mix100k"   -> MkBig(<<LB, RepI, N1, RB>>, 0, <<V("12"), CM, BlockC(<<"a">>), StrI(<<"Q">>), CM, LineC(<<"q">>, "term")>>, 7000)
